@@ -256,6 +256,11 @@ fn classify(honest: &Sd, got: &Sd, classes: &[&'static str]) -> String {
     format!("C11/cardano-stake-distribution:altered-map-verified:{}", cs.join("+"))
 }
 
+/// a collision between adjacent entries that needs a *certified* identifier beginning with a digit
+fn adjacent_is_observation(honest: &Sd) -> bool {
+    honest.map.keys().any(|k| k.as_bytes().first().is_some_and(|c| c.is_ascii_digit()))
+}
+
 pub struct CsdResult {
     pub rep: Report,
     /// distinct unordered pairs {certified map, other map verified under its certificate}
@@ -311,7 +316,7 @@ pub fn run_csd(honest: &Sd, depth: usize) -> CsdResult {
                     res_b.push(pair_id(honest, &got));
                 } else if key == KEY_STAKE_ADJACENT {
                     res_a.push(pair_id(honest, &got));
-                    if honest.map.keys().any(|k| k.as_bytes()[0].is_ascii_digit()) {
+                    if adjacent_is_observation(honest) {
                         // needs a *certified* pool identifier that begins with a decimal digit: Cardano pool
                         // identifiers are bech32 ("pool1…"), so this is kept as an observation (see assumptions)
                         rep.add_extra("observation_csd_adjacent_entries_collision_needing_a_digit_leading_certified_pool_id", 1);
@@ -394,6 +399,10 @@ pub fn replay_csd(v: &Value, rep: &mut Report) {
             } else {
                 rep.outcome("verified:ANOTHER-distribution");
                 let key = classify(&honest, &shown, &["replayed"]);
+                if key == KEY_STAKE_ADJACENT && adjacent_is_observation(&honest) {
+                    eprintln!("replay: observation only (a certified pool identifier begins with a digit)");
+                    return;
+                }
                 rep.violation(&key, format!("certified {:?}, served and shown as verified {:?}", honest.map, shown.map), v.clone());
             }
         }
